@@ -1,0 +1,54 @@
+package codegen
+
+import (
+	"fmt"
+
+	"github.com/HobbyOSs/gosk/pkg/cpu"
+)
+
+// branchFormOperand は pass1 が分岐命令の第2オペランドとして渡した形式名 (SHORT/NEAR16/NEAR32) を返します。
+// 形式の指定がなければ空文字列 (従来どおり距離から形式を選ぶ)。
+func branchFormOperand(operands []string) string {
+	if len(operands) >= 2 {
+		switch operands[1] {
+		case "SHORT", "NEAR16", "NEAR32":
+			return operands[1]
+		}
+	}
+	return ""
+}
+
+// encodeBranchForm は pass1 が決めた形式のとおりに相対分岐を出力します。
+// short は rel8 形式のオペコード (CALL にはないので nil)、near は rel16/rel32 形式のオペコード、
+// instAddr は分岐命令の先頭アドレス。変位がその形式に収まらなければ切り詰めずにエラーにします。
+func encodeBranchForm(form string, short []byte, near []byte, destAddr int64, instAddr int64, bitMode cpu.BitMode) ([]byte, error) {
+	switch form {
+	case "SHORT":
+		if short == nil {
+			return nil, fmt.Errorf("no rel8 form for this branch")
+		}
+		disp := destAddr - (instAddr + int64(len(short)) + 1)
+		if disp < -0x80 || disp > 0x7f {
+			return nil, fmt.Errorf("branch displacement %d does not fit in rel8", disp)
+		}
+		return append(append([]byte{}, short...), byte(disp)), nil
+	case "NEAR16":
+		if bitMode != cpu.MODE_16BIT {
+			return nil, fmt.Errorf("rel16 branch form is only available in 16-bit mode")
+		}
+		disp := destAddr - (instAddr + int64(len(near)) + 2)
+		if disp < -0x8000 || disp > 0x7fff {
+			return nil, fmt.Errorf("branch displacement %d does not fit in rel16", disp)
+		}
+		return append(append([]byte{}, near...), byte(disp), byte(disp>>8)), nil
+	case "NEAR32":
+		code := []byte{}
+		if bitMode == cpu.MODE_16BIT {
+			code = append(code, 0x66) // 16bit モードで rel32 を使うにはオペランドサイズプレフィックスが要る
+		}
+		code = append(code, near...)
+		disp := destAddr - (instAddr + int64(len(code)) + 4)
+		return append(code, byte(disp), byte(disp>>8), byte(disp>>16), byte(disp>>24)), nil
+	}
+	return nil, fmt.Errorf("unknown branch form %q", form)
+}
